@@ -281,7 +281,7 @@ func (r *Reader) Inspect(validateBlockHash bool) (Stats, error) {
 			// The SumStream uses a buffered copy to write bytes into the hasher which will take
 			// advantage of streaming hash calculation depending on the hash function.
 			// TODO: introduce SumStream in go-cid to simplify the code here.
-			blockReader := io.LimitReader(dr, int64(blockLength))
+			blockReader := &io.LimitedReader{R: dr, N: int64(blockLength)}
 			mhl := cp.MhLength
 			if mhtype == multicodec.Identity {
 				mhl = -1
@@ -289,6 +289,11 @@ func (r *Reader) Inspect(validateBlockHash bool) (Stats, error) {
 			mh, err := multihash.SumStream(blockReader, cp.MhType, mhl)
 			if err != nil {
 				return Stats{}, err
+			}
+			if blockReader.N != 0 {
+				// The payload ended before the announced end of the section: SumStream hashes
+				// whatever is there, so a short block must be reported here.
+				return Stats{}, io.ErrUnexpectedEOF
 			}
 			var gotCid cid.Cid
 			switch cp.Version {
